@@ -1,0 +1,241 @@
+//! Verification facade (cargo feature `verif`, off by default).
+//!
+//! A thin `pub` layer over `pub(crate)` internals so that an external harness can drive the
+//! **real** batching ([`Batcher`] = `BlobSubmitter`'s `next_submission` / `pending_block`
+//! protocol), the **real** conversion of sequencer blocks to Celestia blobs ([`convert`]) and the
+//! **real** reader of the submission state file ([`read_submission_state`]).
+//!
+//! Nothing in here implements production logic; it only forwards and exposes state.
+
+use std::{
+    path::Path,
+    sync::OnceLock,
+};
+
+use astria_core::{
+    primitive::v1::RollupId,
+    sequencerblock::v1::SequencerBlock,
+};
+use celestia_types::Blob;
+
+use crate::{
+    relayer::verif_hooks as hooks,
+    IncludeRollup,
+    Metrics,
+};
+
+/// `MAX_PAYLOAD_SIZE_BYTES` of `relayer::write::conversion`.
+pub const MAX_PAYLOAD_SIZE_BYTES: usize = hooks::MAX_PAYLOAD_SIZE_BYTES;
+
+/// A process-wide no-op [`Metrics`] instance (what the crate's own unit tests use).
+///
+/// # Panics
+/// Panics if the no-op metrics cannot be registered.
+#[must_use]
+pub fn noop_metrics() -> &'static Metrics {
+    static METRICS: OnceLock<&'static Metrics> = OnceLock::new();
+    METRICS.get_or_init(|| {
+        use telemetry::Metrics as _;
+        Box::leak(Box::new(
+            Metrics::noop_metrics(&()).expect("no-op metrics can be registered"),
+        ))
+    })
+}
+
+/// Builds a rollup filter through the real `IncludeRollup::parse` (comma-separated standard-base64
+/// ids, the format of `ASTRIA_SEQUENCER_RELAYER_ONLY_INCLUDE_ROLLUPS`).
+/// An empty slice is the "include every rollup" filter.
+///
+/// # Errors
+/// Returns the error of `IncludeRollup::parse` as a string.
+pub fn include_rollups(rollup_ids: &[RollupId]) -> Result<IncludeRollup, String> {
+    use base64::{
+        prelude::BASE64_STANDARD,
+        Engine as _,
+    };
+    let input = rollup_ids
+        .iter()
+        .map(|rollup_id| BASE64_STANDARD.encode(rollup_id.as_ref()))
+        .collect::<Vec<_>>()
+        .join(",");
+    IncludeRollup::parse(&input).map_err(|error| format!("{error:#}"))
+}
+
+/// The blobs and sizes of a payload produced by the real conversion.
+#[derive(Clone, Debug)]
+pub struct Payload {
+    pub blobs: Vec<Blob>,
+    /// `Payload::compressed_size` as accounted by the relayer.
+    pub compressed_size: usize,
+    /// `Payload::uncompressed_size` as accounted by the relayer.
+    pub uncompressed_size: usize,
+}
+
+/// Converts `blocks` into one payload: `Input::extend_from_sequencer_block` for every block in
+/// order, then `Input::try_into_payload`.
+///
+/// # Errors
+/// Returns the `TryIntoPayloadError` as a string.
+pub fn convert(
+    blocks: Vec<SequencerBlock>,
+    rollup_filter: &IncludeRollup,
+) -> Result<Payload, String> {
+    let hooks::PayloadParts {
+        blobs,
+        compressed_size,
+        uncompressed_size,
+    } = hooks::convert(blocks, rollup_filter)
+        .map_err(|error| format!("{error:#}"))?;
+    Ok(Payload {
+        blobs,
+        compressed_size,
+        uncompressed_size,
+    })
+}
+
+/// A submission taken out of the batcher.
+#[derive(Clone, Debug)]
+pub struct TakenSubmission {
+    pub num_blocks: usize,
+    pub num_blobs: usize,
+    pub compressed_size: usize,
+    pub uncompressed_size: usize,
+    pub greatest_sequencer_height: u64,
+    /// `InputMeta::sequencer_heights` (a sorted set).
+    pub sequencer_heights: Vec<u64>,
+    pub rollups_included: Vec<RollupId>,
+    pub rollups_excluded: Vec<RollupId>,
+    pub blobs: Vec<Blob>,
+}
+
+/// What happened to a block offered to the batcher.
+#[derive(Debug)]
+pub enum Offer {
+    /// `BlobSubmitter::has_capacity` is false: the block was not received (in production it
+    /// stays in the channel). The block is handed back.
+    NoCapacity(Box<SequencerBlock>),
+    /// `add_sequencer_block_to_next_submission` returned `Ok`; `pending` tells whether the block
+    /// was parked as `pending_block` (next submission full) instead of being added.
+    Accepted { pending: bool },
+    /// `add_sequencer_block_to_next_submission` returned an error (critical in production).
+    Failed(String),
+}
+
+/// The real `BlobSubmitter` batching state, driven without a Celestia client.
+pub struct Batcher(hooks::Batcher);
+
+impl Batcher {
+    /// Must be called inside a tokio runtime context.
+    ///
+    /// # Errors
+    /// Returns an error if the inert Celestia client builder cannot be constructed.
+    pub fn new(rollup_filter: IncludeRollup) -> Result<Self, String> {
+        hooks::Batcher::new(rollup_filter, noop_metrics())
+            .map(Self)
+            .map_err(|error| format!("{error:#}"))
+    }
+
+    #[must_use]
+    pub fn has_capacity(&self) -> bool {
+        self.0.has_capacity()
+    }
+
+    /// Height of the parked `pending_block`, if any.
+    #[must_use]
+    pub fn pending_height(&self) -> Option<u64> {
+        self.0.pending_height()
+    }
+
+    /// The "receive a block" arm of `BlobSubmitter::run`.
+    pub fn offer(&mut self, block: SequencerBlock) -> Offer {
+        match self.0.offer(block) {
+            Err(block) => Offer::NoCapacity(Box::new(block)),
+            Ok(Ok(())) => Offer::Accepted {
+                pending: self.0.pending_height().is_some(),
+            },
+            Ok(Err(error)) => Offer::Failed(format!("{error:#}")),
+        }
+    }
+
+    /// The "take the next submission" arm of `BlobSubmitter::run` (including re-adding the
+    /// pending block). `None` if the next submission is empty.
+    ///
+    /// # Errors
+    /// The second tuple element is the result of re-adding the pending block.
+    pub fn take(&mut self) -> Option<(TakenSubmission, Result<(), String>)> {
+        let (parts, readd) = self.0.take()?;
+        let hooks::SubmissionParts {
+            num_blocks,
+            num_blobs,
+            compressed_size,
+            uncompressed_size,
+            greatest_sequencer_height,
+            sequencer_heights,
+            rollups_included,
+            rollups_excluded,
+            blobs,
+        } = parts;
+        Some((
+            TakenSubmission {
+                num_blocks,
+                num_blobs,
+                compressed_size,
+                uncompressed_size,
+                greatest_sequencer_height,
+                sequencer_heights,
+                rollups_included,
+                rollups_excluded,
+                blobs,
+            },
+            readd.map_err(|error| format!("{error:#}")),
+        ))
+    }
+}
+
+/// The content of the submission state file.
+#[derive(Clone, Debug, PartialEq, Eq)]
+pub enum SubmissionState {
+    Fresh,
+    Started {
+        last_celestia_height: u64,
+        last_sequencer_height: u64,
+    },
+    Prepared {
+        sequencer_height: u64,
+        last_celestia_height: u64,
+        last_sequencer_height: u64,
+        /// lower-case hex
+        blob_tx_hash: String,
+    },
+}
+
+/// Reads the submission state file with the real `State::read` (parse + sanity check).
+///
+/// # Errors
+/// Returns the error chain of `State::read` as a string.
+pub async fn read_submission_state(path: &Path) -> Result<SubmissionState, String> {
+    let view = hooks::read_submission_state(path)
+        .await
+        .map_err(|error| format!("{error:#}"))?;
+    Ok(match view {
+        hooks::StateView::Fresh => SubmissionState::Fresh,
+        hooks::StateView::Started {
+            last_celestia_height,
+            last_sequencer_height,
+        } => SubmissionState::Started {
+            last_celestia_height,
+            last_sequencer_height,
+        },
+        hooks::StateView::Prepared {
+            sequencer_height,
+            last_celestia_height,
+            last_sequencer_height,
+            blob_tx_hash,
+        } => SubmissionState::Prepared {
+            sequencer_height,
+            last_celestia_height,
+            last_sequencer_height,
+            blob_tx_hash,
+        },
+    })
+}
